@@ -318,8 +318,9 @@ namespace Varpro.Drv
 open Varpro
 
 /-- C05: the certified families (failing-input search).  Thresholds were calibrated on the unchanged
-tree (40 000 fits, all successful; worst values: reproduction 2.5e-15 / 1.4e-6 (f64/f32),
-cos∠(J_k, r) 3.9e-7 / 9.5e-3, SSQ(fit)/SSQ(truth) ≤ 0.99992) and frozen with margins ≥ 20. -/
+tree (80 000 fits over nine families incl. the long-tail / narrow-peak variants, all successful;
+worst values: reproduction 3.2e-13 / 1.3e-4 (f64/f32), cos∠(J_k, r) 7.2e-7 / 1.6e-2,
+SSQ(fit)/SSQ(truth) ≤ 0.999994 / 1.00046) and frozen with margins ≥ 20. -/
 def handleConv (focus : String) (c : Case) : String := Id.run do
   let _ := focus
   let width := attrNat c.header "width" 64
@@ -335,8 +336,9 @@ def handleConv (focus : String) (c : Case) : String := Id.run do
   let evals := attrNat rl "evals"
   if evals > 100 * (p + 1) then acc := { acc with mon := acc.mon.push s!"evaluations={evals}" }
   let getF (k : String) : Option Float := match attrStr rl k with | "none" => none | "" => none | h => some (parseF h)
-  let reproTol := if width == 32 then 1e-4 else 1e-12
-  let cosTol := if width == 32 then 0.2 else 1e-4
+  let reproTol := if width == 32 then 5e-3 else 1e-11
+  let cosTol := if width == 32 then 0.4 else 2e-5
+  let ssqSlack := if width == 32 then 2e-2 else 1e-6
   match getF "repro", getF "ssqfit", getF "ssqtruth", getF "maxcos" with
   | some repro, some ssqfit, some ssqtruth, some maxcos =>
     acc := { acc with compared := acc.compared + 3 }
@@ -349,7 +351,7 @@ def handleConv (focus : String) (c : Case) : String := Id.run do
     -- weighted sum of squares never above that of the generating parameters (slack: rounding of the
     -- reproduction of exact data)
     let slack := (reproTol * 10.0) * (reproTol * 10.0) * (n * s).toFloat * 100.0
-    if !(ssqfit ≤ ssqtruth * (1.0 + 1e-6) + slack) then
+    if !(ssqfit ≤ ssqtruth * (1.0 + ssqSlack) + slack) then
       acc := { acc with mon := acc.mon.push s!"SSQ(fit)={fmtF ssqfit}>SSQ(truth)={fmtF ssqtruth}" }
   | _, _, _, _ => acc := { acc with mon := acc.mon.push "successful-fit-without-residuals/best_fit" }
   return acc.render tag
